@@ -153,12 +153,12 @@ Section Agree.
   Hypothesis Hnd : nodup_z (map o_key w) = true.
   Variable t : obj.                  (* the object bound to the other variable (two-variable queries); unused otherwise *)
 
-  Definition is_jrel (j : join) : bool := match j with JRel _ _ _ => true | _ => false end.
+  Definition is_jrel (j : join) : bool := match j with JRel _ _ _ _ => true | _ => false end.
 
   (* ---------- the one environment a root row (and a row of the joined table) extends to along to-one joins ---------- *)
   Definition step_env (env : list row) (j : join) : option (list row) :=
     match j with
-    | JRel src a tgt =>
+    | JRel _ src a tgt =>
         match ecol env src a with
         | VInt k => match find_obj w k with
                     | Some o' => if inst_of sc tgt o' then Some (env ++ [row_of o']) else None
@@ -166,7 +166,7 @@ Section Agree.
                     end
         | _ => None
         end
-    | JCross _ | JEq _ _ _ _ => Some (env ++ [row_of t])
+    | JCross _ _ | JEq _ _ _ _ => Some (env ++ [row_of t])
     end.
   Fixpoint build_env (env : list row) (js : list join) : option (list row) :=
     match js with
@@ -182,9 +182,9 @@ Section Agree.
   Qed.
   Lemma step_env_shape env j env' : step_env env j = Some env' -> exists r, env' = env ++ [r].
   Proof.
-    destruct j; simpl; try (intros H; injection H as <-; eauto; fail).
+    destruct j as [oo src a tgt|oo c|c tfk an afk]; simpl; try (intros H; injection H as <-; eauto; fail).
     destruct (ecol env src a); try discriminate.
-    destruct (find_obj w z); try discriminate. destruct (inst_of sc tgt o); try discriminate.
+    destruct (find_obj w z) as [ob|]; try discriminate. destruct (inst_of sc tgt ob); try discriminate.
     intros H. injection H as <-. eauto.
   Qed.
   Lemma build_env_prefix js : forall env env', build_env env js = Some env' ->
@@ -200,11 +200,12 @@ Section Agree.
   Lemma step_join_rows env j env' : is_jrel j = true -> step_env env j = Some env' ->
     map (fun r => env ++ [r]) (join_rows (encode sc w) env j) = [env'].
   Proof.
-    destruct j; simpl; try discriminate. intros _. destruct (ecol env src a) eqn:Ec; try discriminate.
-    destruct (find_obj w z) eqn:Ef; try discriminate. destruct (inst_of sc tgt o) eqn:Ei; try discriminate.
+    destruct j as [oo src a tgt|oo c|c tfk an afk]; simpl; try discriminate. intros _.
+    destruct (ecol env src a) eqn:Ec; try discriminate.
+    destruct (find_obj w z) as [ob|] eqn:Ef; try discriminate. destruct (inst_of sc tgt ob) eqn:Ei; try discriminate.
     intros H. injection H as <-. unfold encode, instances.
     erewrite filter_ext with (g := fun r => r_id r =? z).
-    - rewrite (join_rel_unique sc tgt w z o); auto.
+    - rewrite (join_rel_unique sc tgt w z ob); auto. now destruct oo.
     - intros r. simpl. apply tv_true_of_bool.
   Qed.
 
@@ -221,26 +222,26 @@ Section Agree.
   Qed.
 
   (* the i-th join put the row of the referenced object at position |env0| + i *)
-  Lemma build_env_nth js : forall env0 env n src a tgt,
-    build_env env0 js = Some env -> nth_error js n = Some (JRel src a tgt) ->
+  Lemma build_env_nth js : forall env0 env n oo src a tgt,
+    build_env env0 js = Some env -> nth_error js n = Some (JRel oo src a tgt) ->
     exists k o', ecol env src a = VInt k /\ find_obj w k = Some o' /\
                  nth_error env (length env0 + n) = Some (row_of o').
   Proof.
-    induction js as [|j js IH]; intros env0 env n src a tgt Hb Hn.
+    induction js as [|j js IH]; intros env0 env n oo src a tgt Hb Hn.
     - destruct n; discriminate.
     - simpl in Hb. destruct (step_env env0 j) as [e1|] eqn:E; try discriminate.
       destruct n as [|n]; simpl in Hn.
       + injection Hn as ->. simpl in E.
         destruct (ecol env0 src a) eqn:Ec; try discriminate.
-        destruct (find_obj w z) eqn:Ef; try discriminate. destruct (inst_of sc tgt o); try discriminate.
+        destruct (find_obj w z) as [ob|] eqn:Ef; try discriminate. destruct (inst_of sc tgt ob); try discriminate.
         injection E as <-. destruct (build_env_prefix _ _ _ Hb) as [more [-> _]].
-        exists z, o. repeat split; auto.
+        exists z, ob. repeat split; auto.
         * assert (src < length env0)%nat.
           { unfold ecol in Ec. destruct (nth_error env0 src) eqn:En; try discriminate. eapply nth_some_lt; eauto. }
           rewrite <- app_assoc, ecol_app; auto.
         * rewrite Nat.add_0_r, <- app_assoc. rewrite nth_error_app2 by lia. now rewrite Nat.sub_diag.
       + destruct (step_env_shape _ _ _ E) as [r ->].
-        destruct (IH _ _ _ _ _ _ Hb Hn) as [k [o' [H1 [H2 H3]]]].
+        destruct (IH _ _ _ _ _ _ _ Hb Hn) as [k [o' [H1 [H2 H3]]]].
         exists k, o'. repeat split; auto. rewrite app_length in H3. simpl in H3.
         now replace (length env0 + S n)%nat with (length env0 + 1 + n)%nat by lia.
   Qed.
@@ -248,7 +249,7 @@ Section Agree.
   (* ---------- the translator state while only to-one joins from the root have been made ---------- *)
   Definition inv (st : jm) : Prop :=
     forall src a i, lookup_path (j_paths st) src a = Some i ->
-        (1 <= i)%nat /\ exists tgt, nth_error (j_joins st) (pred i) = Some (JRel src a tgt).
+        (1 <= i)%nat /\ exists oo tgt, nth_error (j_joins st) (pred i) = Some (JRel oo src a tgt).
 
   Variable o : obj.                                 (* the object of the root row *)
   Definition renv (st : jm) : option (list row) := build_env [row_of o] (j_joins st).
@@ -269,8 +270,8 @@ Section Agree.
     destruct (lookup_path (j_paths st) cur a) as [i0|] eqn:El.
     - intros H. injection H as <- <-. split; [exact Hp|].
       exists []. rewrite app_nil_r. split; auto.
-      destruct (Hp _ _ _ El) as [Hge [tgt' Hn]].
-      destruct (build_env_nth _ _ _ _ _ _ _ He Hn) as [k' [o'' [H1 [H2 H3]]]].
+      destruct (Hp _ _ _ El) as [Hge [oo' [tgt' Hn]]].
+      destruct (build_env_nth _ _ _ _ _ _ _ _ He Hn) as [k' [o'' [H1 [H2 H3]]]].
       rewrite Hcol in H1. injection H1 as <-. rewrite Hf in H2. injection H2 as <-.
       replace (length [row_of o] + pred i0)%nat with i0 in H3 by (simpl; lia). exact H3.
     - intros H. injection H as <- <-.
@@ -282,8 +283,8 @@ Section Agree.
           destruct (Nat.eqb cur src && (b =? a)) eqn:E.
           -- intros H. injection H as <-. apply andb_true_iff in E. destruct E as [E1 E2].
              apply Nat.eqb_eq in E1. apply Z.eqb_eq in E2. subst. split; [lia|].
-             exists tgt. cbn [pred]. rewrite nth_error_app2 by lia. now rewrite Nat.sub_diag.
-          -- intros H. destruct (Hp _ _ _ H) as [Hge [t' Hn]]. split; auto. exists t'.
+             exists (j_io st), tgt. cbn [pred]. rewrite nth_error_app2 by lia. now rewrite Nat.sub_diag.
+          -- intros H. destruct (Hp _ _ _ H) as [Hge [oo' [t' Hn]]]. split; auto. exists oo', t'.
              rewrite nth_error_app1; auto. eapply nth_some_lt; eauto.
       + exists [row_of o']. unfold renv in *. cbn [j_joins]. rewrite build_env_app, He. simpl.
         rewrite Hcol, Hf, Ht. split; auto.
@@ -338,7 +339,7 @@ Section Agree.
   Lemma toperand_ok x : forall st env v,
     inv st -> renv st = Some env -> operand_shape sc sel root x = true -> operand_data sc w sel root o x = Some v ->
     exists e st' more,
-      toperand sc vars sel root st x = ROk e st' /\ inv st' /\ renv st' = Some (env ++ more) /\
+      toperand sc sel root st x = ROk e st' /\ inv st' /\ renv st' = Some (env ++ more) /\
       (forall more', eval_sx ((env ++ more) ++ more') e = v) /\ eval_operand w bnd x = Ok v /\
       nscalar v = true /\ sx_bad e = false /\ match x with OAttr _ _ => is_col e = true | _ => e = SConst v end.
   Proof.
@@ -360,12 +361,13 @@ Section Agree.
 
   Lemma teqjoin_none io st op v ch r :
     operand_shape sc sel root (OAttr v ch) = true -> operand_shape sc sel root r = true ->
-    teqjoin sc vars root io st op (OAttr v ch) r = None.
+    teqjoin sc vars sel root io st op (OAttr v ch) r = None.
   Proof.
     intros H1 H2. destruct (shape_attr _ _ H1) as [E1 _].
-    destruct op; simpl; auto. destruct r as [v2 ch2| | |]; auto.
+    destruct op; try reflexivity; try (destruct ch as [|? [|]]; reflexivity).
+    destruct ch as [|a1 [|]]; try reflexivity. destruct r as [v2 [|a2 [|]]| | |]; try reflexivity.
     destruct (shape_attr _ _ H2) as [E2 _].
-    apply Z.eqb_eq in E1, E2. subst. now rewrite Z.eqb_refl.
+    apply Z.eqb_eq in E1, E2. subst. cbn [teqjoin]. now rewrite Z.eqb_refl.
   Qed.
 
   Lemma shape_not_rel x : operand_shape sc sel root x = true -> is_rel sc vars x = false.
@@ -391,6 +393,30 @@ Section Agree.
     destruct (eqne op); simpl in *; auto. now apply negb_true_iff in H.
   Qed.
 
+  Lemma mismatch_shape l r :
+    operand_shape sc sel root l = true -> negb (mismatch_op sc root l r) = true ->
+    (exists v ch, l = OAttr v ch) ->
+    lit_mismatch sc vars l r || lit_mismatch sc vars r l = false.
+  Proof.
+    intros Hl Hm [v [ch ->]]. destruct (shape_attr _ _ Hl) as [E1 _]. apply Z.eqb_eq in E1. subst v.
+    apply negb_true_iff in Hm. unfold lit_mismatch, operand_mismatch. rewrite Hvars.
+    destruct r as [v2 ch2|c| |]; simpl in *; auto. now rewrite Hm.
+  Qed.
+  Lemma mismatch_list_shape v ch cs :
+    operand_shape sc sel root (OAttr v ch) = true -> negb (existsb (mismatch_lit sc root ch) cs) = true ->
+    existsb (operand_mismatch sc vars (OAttr v ch)) cs = false.
+  Proof.
+    intros Hl Hm. destruct (shape_attr _ _ Hl) as [E1 _]. apply Z.eqb_eq in E1. subst v.
+    apply negb_true_iff in Hm. unfold operand_mismatch. now rewrite Hvars.
+  Qed.
+  Lemma mk_in_scalars a cs : forallb scalar_val cs = true -> mk_in a cs = SIn a cs.
+  Proof.
+    intros H. unfold mk_in. assert (E : existsb is_null cs = false).
+    { induction cs as [|c cs IH]; simpl in *; auto. apply andb_true_iff in H. destruct H as [H1 H2].
+      rewrite IH by auto. now destruct c. }
+    now rewrite E.
+  Qed.
+
   Lemma unbindable_scalars cs : forallb scalar_val cs = true -> existsb unbindable cs = false.
   Proof.
     induction cs as [|c cs IH]; simpl; auto. rewrite andb_true_iff. intros [H1 H2].
@@ -404,21 +430,23 @@ Section Agree.
       eval_cond w bnd c = Ok b /\ (forall more', tv_true (eval_pred ((env ++ more) ++ more') p) = b) /\
       pred_bad p = false.
   Proof.
-    induction c as [op l r|ct it|p IHp q IHq|p IHp q IHq|p _|x|cs0 it0]; intros io st env Hinv He Hs Hd;
+    induction c as [op l r|ct it|p IHp q IHq|p IHp q IHq|p _|x|cs0 it0|]; intros io st env Hinv He Hs Hd;
       cbn [cond_shape cond_ok] in Hs, Hd; try discriminate.
     - (* comparison *)
       destruct l as [v ch| | |]; try discriminate.
-      apply andb_true_iff in Hs. destruct Hs as [Hs Hen]. apply andb_true_iff in Hs. destruct Hs as [Hs _].
+      apply andb_true_iff in Hs. destruct Hs as [Hs Hmm]. apply andb_true_iff in Hs. destruct Hs as [Hs Hen].
+      apply andb_true_iff in Hs. destruct Hs as [Hs _].
       apply andb_true_iff in Hs. destruct Hs as [Hs1 Hs2].
       destruct (operand_data sc w sel root o (OAttr v ch)) as [a|] eqn:Ea; try discriminate.
       destruct (operand_data sc w sel root o r) as [b|] eqn:Eb; try discriminate.
-      destruct (toperand_ok _ _ _ _ Hinv He Hs1 Ea) as [e1 [st1 [m1 [T1 [I1 [R1 [V1 [P1 [S1 [B1 C1]]]]]]]]]].
+      destruct (toperand_ok _ (set_io io st) _ _ Hinv He Hs1 Ea) as [e1 [st1 [m1 [T1 [I1 [R1 [V1 [P1 [S1 [B1 C1]]]]]]]]]].
       destruct (toperand_ok _ _ _ _ I1 R1 Hs2 Eb) as [e2 [st2 [m2 [T2 [I2 [R2 [V2 [P2 [S2 [B2 C2]]]]]]]]]].
       assert (C2' : is_col e2 = true \/ e2 = SConst b) by (destruct r; auto).
       destruct (mk_cmp_sound w op e1 e2 a b C1 C2' S1 S2 Hd B2) as [p [M [PB PV]]].
       exists p, st2, (m1 ++ m2), (tv_true (eval_pred (((env ++ m1) ++ m2)) p)).
       cbn [tcond]. unfold tcmp. rewrite (teqjoin_none _ _ _ _ _ _ Hs1 Hs2), (rel_check_shape _ _ _ Hs1 Hs2). cbn [negb].
-      rewrite T1, T2, (enum_check_shape _ _ _ Hs1 Hs2 Hen), M. rewrite app_assoc.
+      rewrite T1, T2, (mismatch_shape _ _ Hs1 Hmm (ex_intro _ v (ex_intro _ ch eq_refl))), (enum_check_shape _ _ _ Hs1 Hs2 Hen), M.
+      rewrite app_assoc.
       assert (PV' : forall more', py_cmp w op a b = Ok (tv_true (eval_pred (((env ++ m1) ++ m2) ++ more') p))).
       { intros more'. apply PV; [rewrite <- (app_assoc (env ++ m1) m2 more'); apply V1 | apply V2]. }
       split; [reflexivity|]. split; [assumption|]. split; [assumption|].
@@ -427,11 +455,12 @@ Section Agree.
       intros more'. assert (Q := PV' more'). assert (Q0 := PV' []). rewrite app_nil_r in Q0. congruence.
     - (* membership in a literal list *)
       destruct ct as [| |cs|]; try discriminate. destruct it as [v ch| | |]; try discriminate.
-      apply andb_true_iff in Hs. destruct Hs as [Hs1 Hs2].
+      apply andb_true_iff in Hs. destruct Hs as [Hs Hmm]. apply andb_true_iff in Hs. destruct Hs as [Hs1 Hs2].
       destruct (operand_data sc w sel root o (OAttr v ch)) as [a|] eqn:Ea; try discriminate.
-      destruct (toperand_ok _ _ _ _ Hinv He Hs1 Ea) as [e1 [st1 [m1 [T1 [I1 [R1 [V1 [P1 [S1 [B1 N1]]]]]]]]]].
+      destruct (toperand_ok _ (set_io io st) _ _ Hinv He Hs1 Ea) as [e1 [st1 [m1 [T1 [I1 [R1 [V1 [P1 [S1 [B1 N1]]]]]]]]]].
       exists (SIn e1 cs), st1, m1, (existsb (fun c => val_eq eq_fuel w a c) cs).
       cbn [tcond]. unfold tcontains. rewrite (shape_not_rel _ Hs1). cbn [is_rel orb]. cbn [toperand] in T1. rewrite T1.
+      rewrite (mismatch_list_shape _ _ _ Hs1 Hmm), (mk_in_scalars _ _ Hs2).
       split; [reflexivity|]. split; [assumption|]. split; [assumption|].
       split; [cbn [eval_cond eval_operand]; cbn [eval_operand] in P1; rewrite P1; reflexivity|].
       split; [|simpl; now rewrite B1, unbindable_scalars].
@@ -457,7 +486,7 @@ Section Agree.
     - (* a column as condition *)
       destruct x as [v ch| | |]; try discriminate.
       destruct (operand_data sc w sel root o (OAttr v ch)) as [a|] eqn:Ea; try discriminate.
-      destruct (toperand_ok _ _ _ _ Hinv He Hs Ea) as [e1 [st1 [m1 [T1 [I1 [R1 [V1 [P1 [S1 [B1 N1]]]]]]]]]].
+      destruct (toperand_ok _ (set_io io st) _ _ Hinv He Hs Ea) as [e1 [st1 [m1 [T1 [I1 [R1 [V1 [P1 [S1 [B1 N1]]]]]]]]]].
       exists (STruth e1), st1, m1, (truthy a).
       cbn [tcond]. cbn [toperand] in T1. rewrite T1.
       split; [reflexivity|]. split; [assumption|]. split; [assumption|].
@@ -466,11 +495,12 @@ Section Agree.
       intros more'. cbn [eval_pred]. rewrite V1. now apply truth_sound.
     - (* membership in a literal set *)
       destruct it0 as [v ch| | |]; try discriminate.
-      apply andb_true_iff in Hs. destruct Hs as [Hs1 Hs2].
+      apply andb_true_iff in Hs. destruct Hs as [Hs Hmm]. apply andb_true_iff in Hs. destruct Hs as [Hs1 Hs2].
       destruct (operand_data sc w sel root o (OAttr v ch)) as [a|] eqn:Ea; try discriminate.
-      destruct (toperand_ok _ _ _ _ Hinv He Hs1 Ea) as [e1 [st1 [m1 [T1 [I1 [R1 [V1 [P1 [S1 [B1 N1]]]]]]]]]].
+      destruct (toperand_ok _ (set_io io st) _ _ Hinv He Hs1 Ea) as [e1 [st1 [m1 [T1 [I1 [R1 [V1 [P1 [S1 [B1 N1]]]]]]]]]].
       exists (SIn e1 cs0), st1, m1, (existsb (fun c => val_eq eq_fuel w a c) cs0).
       cbn [tcond]. unfold tcontains. rewrite (shape_not_rel _ Hs1). cbn [is_rel orb]. cbn [toperand] in T1. rewrite T1.
+      rewrite (mismatch_list_shape _ _ _ Hs1 Hmm), (mk_in_scalars _ _ Hs2).
       split; [reflexivity|]. split; [assumption|]. split; [assumption|].
       split; [cbn [eval_cond eval_operand]; cbn [eval_operand] in P1; rewrite P1; reflexivity|].
       split; [|simpl; now rewrite B1, unbindable_scalars].
@@ -496,7 +526,7 @@ Section Syn.
   Hypothesis Hvars : assoc sel vars = Some root.
 
 Lemma toperand_safe x st e st' :
-  operand_shape sc sel root x = true -> toperand sc vars sel root st x = ROk e st' -> sx_bad e = false.
+  operand_shape sc sel root x = true -> toperand sc sel root st x = ROk e st' -> sx_bad e = false.
 Proof.
   intros Hx H. destruct x as [v ch|c| |]; try discriminate.
   - unfold toperand, tattr in H. destruct (v =? sel); try discriminate. eapply twalk_safe; eauto.
@@ -512,26 +542,29 @@ Lemma tcond_safe c : forall io st p st',
   cond_shape sc sel root c = true -> tcond sc vars sel root io st c = ROk p st' ->
   forall p0, p = Some p0 -> pred_bad p0 = false.
 Proof.
-  induction c as [op l r|ct it|p1 IH1 q1 IH2|p1 IH1 q1 IH2|p1 _|x|cs0 it0]; intros io st p st' Hc H;
+  induction c as [op l r|ct it|p1 IH1 q1 IH2|p1 IH1 q1 IH2|p1 _|x|cs0 it0|]; intros io st p st' Hc H;
     cbn [cond_shape] in Hc; try discriminate.
   - destruct l as [v ch| | |]; try discriminate. apply andb_true_iff in Hc. destruct Hc as [Hc _].
     apply andb_true_iff in Hc. destruct Hc as [Hc _].
+    apply andb_true_iff in Hc. destruct Hc as [Hc _].
     apply andb_true_iff in Hc. destruct Hc as [Hc1 Hc2].
-    cbn [tcond] in H. unfold tcmp in H. rewrite (teqjoin_none sc sel root vars io st op v ch r Hc1 Hc2) in H.
+    cbn [tcond] in H. unfold tcmp in H. rewrite (teqjoin_none sc sel root vars io (set_io io st) op v ch r Hc1 Hc2) in H.
     destruct (negb (rel_check sc vars (eqne op) (OAttr v ch) r)); try discriminate.
-    destruct (toperand sc vars sel root st (OAttr v ch)) as [a st1| | |] eqn:E1; try discriminate.
-    destruct (toperand sc vars sel root st1 r) as [b st2| | |] eqn:E2; try discriminate.
+    destruct (toperand sc sel root (set_io io st) (OAttr v ch)) as [a st1| | |] eqn:E1; try discriminate.
+    destruct (toperand sc sel root st1 r) as [b st2| | |] eqn:E2; try discriminate.
+    destruct (lit_mismatch sc vars (OAttr v ch) r || lit_mismatch sc vars r (OAttr v ch)); try discriminate.
     destruct (negb (eqne op) && (enum_col sc vars (OAttr v ch) || enum_col sc vars r)); try discriminate.
     assert (B1 := toperand_safe _ _ _ _ Hc1 E1). assert (B2 := toperand_safe _ _ _ _ Hc2 E2).
     destruct (mk_cmp op a b) as [p0|] eqn:Em; try discriminate. injection H as <- <-.
     intros p1 Hp. injection Hp as <-. eapply mk_cmp_bad; eauto.
   - destruct ct as [| |cs|]; try discriminate. destruct it as [v ch| | |]; try discriminate.
-    apply andb_true_iff in Hc. destruct Hc as [Hc1 Hc2].
+    apply andb_true_iff in Hc. destruct Hc as [Hc _]. apply andb_true_iff in Hc. destruct Hc as [Hc1 Hc2].
     cbn [tcond] in H. unfold tcontains in H.
     destruct (is_rel sc vars (OList cs) || is_rel sc vars (OAttr v ch)); try discriminate.
-    destruct (tattr sc sel root st v ch) as [a st1| | |] eqn:E1; try discriminate.
-    injection H as <- <-.
-    assert (B1 := toperand_safe (OAttr v ch) st a st1 Hc1 E1).
+    destruct (tattr sc sel root (set_io io st) v ch) as [a st1| | |] eqn:E1; try discriminate.
+    destruct (existsb (operand_mismatch sc vars (OAttr v ch)) cs); try discriminate.
+    injection H as <- <-. rewrite (mk_in_scalars _ _ Hc2).
+    assert (B1 := toperand_safe (OAttr v ch) (set_io io st) a st1 Hc1 E1).
     intros p0 Hp. injection Hp as <-. simpl. rewrite B1. now apply unbindable_scalars.
   - apply andb_true_iff in Hc. destruct Hc as [Hc1 Hc2]. cbn [tcond] in H.
     destruct (tcond sc vars sel root io st p1) as [a st1| | |] eqn:E1; try discriminate.
@@ -546,16 +579,17 @@ Proof.
     intros p0 Hp. destruct a, b; simpl in Hp; try discriminate; injection Hp as <-; simpl;
       rewrite ?(B1 _ eq_refl), ?(B2 _ eq_refl); auto.
   - destruct x as [v ch| | |]; try discriminate. cbn [tcond] in H.
-    destruct (tattr sc sel root st v ch) as [a st1| | |] eqn:E1; try discriminate. injection H as <- <-.
-    assert (B1 := toperand_safe (OAttr v ch) st a st1 Hc E1).
+    destruct (tattr sc sel root (set_io io st) v ch) as [a st1| | |] eqn:E1; try discriminate. injection H as <- <-.
+    assert (B1 := toperand_safe (OAttr v ch) (set_io io st) a st1 Hc E1).
     intros p0 Hp. injection Hp as <-. exact B1.
   - destruct it0 as [v ch| | |]; try discriminate.
-    apply andb_true_iff in Hc. destruct Hc as [Hc1 Hc2].
+    apply andb_true_iff in Hc. destruct Hc as [Hc _]. apply andb_true_iff in Hc. destruct Hc as [Hc1 Hc2].
     cbn [tcond] in H. unfold tcontains in H.
     destruct (is_rel sc vars (OList cs0) || is_rel sc vars (OAttr v ch)); try discriminate.
-    destruct (tattr sc sel root st v ch) as [a st1| | |] eqn:E1; try discriminate.
-    injection H as <- <-.
-    assert (B1 := toperand_safe (OAttr v ch) st a st1 Hc1 E1).
+    destruct (tattr sc sel root (set_io io st) v ch) as [a st1| | |] eqn:E1; try discriminate.
+    destruct (existsb (operand_mismatch sc vars (OAttr v ch)) cs0); try discriminate.
+    injection H as <- <-. rewrite (mk_in_scalars _ _ Hc2).
+    assert (B1 := toperand_safe (OAttr v ch) (set_io io st) a st1 Hc1 E1).
     intros p0 Hp. injection Hp as <-. simpl. rewrite B1. now apply unbindable_scalars.
 Qed.
 
@@ -576,7 +610,7 @@ Proof.
     + destruct (alias_for st cur a tgt) as [i st1] eqn:E. eapply IH; [|exact H]. eapply alias_for_relonly; eauto.
 Qed.
 Lemma toperand_relonly x st e st' :
-  operand_shape sc sel root x = true -> relonly st -> toperand sc vars sel root st x = ROk e st' -> relonly st'.
+  operand_shape sc sel root x = true -> relonly st -> toperand sc sel root st x = ROk e st' -> relonly st'.
 Proof.
   intros Hx Hr H. destruct x as [v ch|c| |]; try discriminate.
   - unfold toperand, tattr in H. destruct (v =? sel); try discriminate. eapply twalk_relonly; eauto.
@@ -585,24 +619,27 @@ Qed.
 Lemma tcond_relonly c : forall io st p st',
   cond_shape sc sel root c = true -> relonly st -> tcond sc vars sel root io st c = ROk p st' -> relonly st'.
 Proof.
-  induction c as [op l r|ct it|p1 IH1 q1 IH2|p1 IH1 q1 IH2|p1 _|x|cs0 it0]; intros io st p st' Hc Hr H;
+  induction c as [op l r|ct it|p1 IH1 q1 IH2|p1 IH1 q1 IH2|p1 _|x|cs0 it0|]; intros io st p st' Hc Hr H;
     cbn [cond_shape] in Hc; try discriminate.
   - destruct l as [v ch| | |]; try discriminate. apply andb_true_iff in Hc. destruct Hc as [Hc _].
     apply andb_true_iff in Hc. destruct Hc as [Hc _].
+    apply andb_true_iff in Hc. destruct Hc as [Hc _].
     apply andb_true_iff in Hc. destruct Hc as [Hc1 Hc2].
-    cbn [tcond] in H. unfold tcmp in H. rewrite (teqjoin_none sc sel root vars io st op v ch r Hc1 Hc2) in H.
+    cbn [tcond] in H. unfold tcmp in H. rewrite (teqjoin_none sc sel root vars io (set_io io st) op v ch r Hc1 Hc2) in H.
     destruct (negb (rel_check sc vars (eqne op) (OAttr v ch) r)); try discriminate.
-    destruct (toperand sc vars sel root st (OAttr v ch)) as [a st1| | |] eqn:E1; try discriminate.
-    destruct (toperand sc vars sel root st1 r) as [b st2| | |] eqn:E2; try discriminate.
+    destruct (toperand sc sel root (set_io io st) (OAttr v ch)) as [a st1| | |] eqn:E1; try discriminate.
+    destruct (toperand sc sel root st1 r) as [b st2| | |] eqn:E2; try discriminate.
+    destruct (lit_mismatch sc vars (OAttr v ch) r || lit_mismatch sc vars r (OAttr v ch)); try discriminate.
     destruct (negb (eqne op) && (enum_col sc vars (OAttr v ch) || enum_col sc vars r)); try discriminate.
     destruct (mk_cmp op a b); try discriminate. injection H as _ <-.
-    eapply toperand_relonly; [exact Hc2| |exact E2]. eapply toperand_relonly; [exact Hc1|exact Hr|exact E1].
+    eapply toperand_relonly; [exact Hc2| |exact E2]. eapply (toperand_relonly (OAttr v ch) (set_io io st)); [exact Hc1|exact Hr|exact E1].
   - destruct ct as [| |cs|]; try discriminate. destruct it as [v ch| | |]; try discriminate.
-    apply andb_true_iff in Hc. destruct Hc as [Hc1 Hc2].
+    apply andb_true_iff in Hc. destruct Hc as [Hc _]. apply andb_true_iff in Hc. destruct Hc as [Hc1 Hc2].
     cbn [tcond] in H. unfold tcontains in H.
     destruct (is_rel sc vars (OList cs) || is_rel sc vars (OAttr v ch)); try discriminate.
-    destruct (tattr sc sel root st v ch) as [a st1| | |] eqn:E1; try discriminate.
-    injection H as _ <-. eapply (toperand_relonly (OAttr v ch)); eauto.
+    destruct (tattr sc sel root (set_io io st) v ch) as [a st1| | |] eqn:E1; try discriminate.
+    destruct (existsb (operand_mismatch sc vars (OAttr v ch)) cs); try discriminate.
+    injection H as _ <-. eapply (toperand_relonly (OAttr v ch) (set_io io st)); eauto.
   - apply andb_true_iff in Hc. destruct Hc as [Hc1 Hc2]. cbn [tcond] in H.
     destruct (tcond sc vars sel root io st p1) as [a st1| | |] eqn:E1; try discriminate.
     destruct (tcond sc vars sel root io st1 q1) as [b st2| | |] eqn:E2; try discriminate.
@@ -612,14 +649,15 @@ Proof.
     destruct (tcond sc vars sel root true st1 q1) as [b st2| | |] eqn:E2; try discriminate.
     injection H as _ <-. eauto.
   - destruct x as [v ch| | |]; try discriminate. cbn [tcond] in H.
-    destruct (tattr sc sel root st v ch) as [a st1| | |] eqn:E1; try discriminate. injection H as _ <-.
-    eapply (toperand_relonly (OAttr v ch)); eauto.
+    destruct (tattr sc sel root (set_io io st) v ch) as [a st1| | |] eqn:E1; try discriminate. injection H as _ <-.
+    eapply (toperand_relonly (OAttr v ch) (set_io io st)); eauto.
   - destruct it0 as [v ch| | |]; try discriminate.
-    apply andb_true_iff in Hc. destruct Hc as [Hc1 Hc2].
+    apply andb_true_iff in Hc. destruct Hc as [Hc _]. apply andb_true_iff in Hc. destruct Hc as [Hc1 Hc2].
     cbn [tcond] in H. unfold tcontains in H.
     destruct (is_rel sc vars (OList cs0) || is_rel sc vars (OAttr v ch)); try discriminate.
-    destruct (tattr sc sel root st v ch) as [a st1| | |] eqn:E1; try discriminate.
-    injection H as _ <-. eapply (toperand_relonly (OAttr v ch)); eauto.
+    destruct (tattr sc sel root (set_io io st) v ch) as [a st1| | |] eqn:E1; try discriminate.
+    destruct (existsb (operand_mismatch sc vars (OAttr v ch)) cs0); try discriminate.
+    injection H as _ <-. eapply (toperand_relonly (OAttr v ch) (set_io io st)); eauto.
 Qed.
 End Syn.
 
@@ -740,7 +778,7 @@ Proof. intros H1 H2. now rewrite (agree sc q w s H1 H2). Qed.
 (* ---------- node kinds the translator does not know are never answered ---------- *)
 Lemma tcond_not sc vars sel root c : has_not c = true -> forall io st p st', tcond sc vars sel root io st c <> ROk p st'.
 Proof.
-  induction c as [op l r|ct it|p1 IH1 q1 IH2|p1 IH1 q1 IH2|p1 _|x|cs0 it0]; intros Hn io st p st'; simpl in Hn; try discriminate.
+  induction c as [op l r|ct it|p1 IH1 q1 IH2|p1 IH1 q1 IH2|p1 _|x|cs0 it0|]; intros Hn io st p st'; simpl in Hn; try discriminate.
   - cbn [tcond]. destruct (tcond sc vars sel root io st p1) as [a st1| | |] eqn:E1; try discriminate.
     destruct (has_not p1) eqn:N1; [exfalso; eapply IH1; eauto|]. simpl in Hn.
     destruct (tcond sc vars sel root io st1 q1) as [b st2| | |] eqn:E2; try discriminate. exfalso; eapply IH2; eauto.
@@ -759,14 +797,17 @@ Qed.
 (* a single comparison / membership / truth test: the whole query is that atom *)
 Definition atom_query (q : query) (c : cond) : Prop := q_cond q = Some c.
 
+Lemma teqjoin_lit_none sc vars sel root io st op v ch c :
+  teqjoin sc vars sel root io st op (OAttr v ch) (OLit c) = None.
+Proof. destruct op; try reflexivity; destruct ch as [|a [|]]; reflexivity. Qed.
+
 (* C07-a: an attribute of a variable other than the selected one, compared with a literal *)
 Theorem rejects_othervar sc q op v ch lit :
   atom_query q (CCmp op (OAttr v ch) (OLit lit)) -> v <> q_sel q -> translate sc q = TReject.
 Proof.
   intros Hc Hv. unfold translate. destruct (q_setof q); [reflexivity|]. rewrite Hc. destruct (assoc (q_sel q) (q_vars q)) as [root|]; auto.
   cbn [tcond]. unfold tcmp.
-  assert (E : teqjoin sc (q_vars q) root false jm0 op (OAttr v ch) (OLit lit) = None) by (destruct op; reflexivity).
-  rewrite E. destruct (negb (rel_check sc (q_vars q) (eqne op) (OAttr v ch) (OLit lit))); auto.
+  rewrite teqjoin_lit_none. destruct (negb (rel_check sc (q_vars q) (eqne op) (OAttr v ch) (OLit lit))); auto.
   unfold toperand, tattr. apply Z.eqb_neq in Hv. now rewrite Hv.
 Qed.
 (* the same inside any operand position: translate_attribute itself refuses *)
@@ -780,8 +821,7 @@ Theorem rejects_rel_literal sc q op v ch lit :
 Proof.
   intros Hc Hr. unfold translate. destruct (q_setof q); [reflexivity|]. rewrite Hc. destruct (assoc (q_sel q) (q_vars q)) as [root|]; auto.
   cbn [tcond]. unfold tcmp.
-  assert (E : teqjoin sc (q_vars q) root false jm0 op (OAttr v ch) (OLit lit) = None) by (destruct op; reflexivity).
-  rewrite E. unfold rel_check. rewrite Hr. cbn [is_rel is_var negb orb andb]. reflexivity.
+  rewrite teqjoin_lit_none. unfold rel_check. rewrite Hr. cbn [is_rel is_var negb orb andb]. reflexivity.
 Qed.
 Theorem rejects_rel_in_list sc q v ch cs :
   atom_query q (CContains (OList cs) (OAttr v ch)) -> is_rel sc (q_vars q) (OAttr v ch) = true ->
@@ -792,16 +832,16 @@ Proof.
 Qed.
 
 (* C07-g: an attribute-equality join of two different variables whose join target is the selected type itself *)
-Theorem rejects_selfjoin sc q v1 ch1 v2 ch2 root a1 a2 t1 t2 :
-  atom_query q (CCmp OEq (OAttr v1 ch1) (OAttr v2 ch2)) -> v1 <> v2 ->
+Theorem rejects_selfjoin sc q v1 a1 v2 a2 root t1 t2 :
+  atom_query q (CCmp OEq (OAttr v1 [a1]) (OAttr v2 [a2])) -> v1 <> v2 ->
   assoc (q_sel q) (q_vars q) = Some root -> assoc v1 (q_vars q) = Some root -> assoc v2 (q_vars q) = Some root ->
-  last_of ch1 = Some a1 -> last_of ch2 = Some a2 ->
   field_kind sc root a1 = Some (FRel t1) -> field_kind sc root a2 = Some (FRel t2) ->
   translate sc q = TReject.
 Proof.
-  intros Hc Hv Hs H1 H2 L1 L2 K1 K2. unfold translate. destruct (q_setof q); [reflexivity|]. rewrite Hc, Hs. cbn [tcond]. unfold tcmp, teqjoin.
-  apply Z.eqb_neq in Hv. rewrite Hv, H1, H2, L1, L2, K1, K2. rewrite Z.eqb_refl. cbn [orb].
-  unfold related. rewrite Z.eqb_refl. reflexivity.
+  intros Hc Hv Hs H1 H2 K1 K2. unfold translate. destruct (q_setof q); [reflexivity|]. rewrite Hc, Hs. cbn [tcond]. unfold tcmp, teqjoin.
+  apply Z.eqb_neq in Hv. rewrite Hv, H1, H2, K1, K2.
+  destruct ((v1 =? q_sel q) || (v2 =? q_sel q)); [|reflexivity].
+  destruct (v1 =? q_sel q); unfold related; rewrite Z.eqb_refl; reflexivity.
 Qed.
 
 (* C07-f: an ordering comparison against the literal None *)
@@ -811,10 +851,9 @@ Proof.
   intros Hc Ho s. unfold translate. destruct (q_setof q); try discriminate.
   rewrite Hc. destruct (assoc (q_sel q) (q_vars q)) as [root|]; try discriminate.
   cbn [tcond]. unfold tcmp.
-  assert (E : teqjoin sc (q_vars q) root false jm0 op (OAttr v ch) (OLit VNull) = None) by (destruct op; reflexivity).
-  rewrite E. destruct (negb (rel_check sc (q_vars q) (eqne op) (OAttr v ch) (OLit VNull))); try discriminate.
-  destruct (toperand sc (q_vars q) (q_sel q) root jm0 (OAttr v ch)) as [a st1| | |]; try discriminate.
-  cbn [toperand]. destruct (negb (eqne op) && _); try discriminate.
+  rewrite teqjoin_lit_none. destruct (negb (rel_check sc (q_vars q) (eqne op) (OAttr v ch) (OLit VNull))); try discriminate.
+  destruct (toperand sc (q_sel q) root (set_io false jm0) (OAttr v ch)) as [a st1| | |]; try discriminate.
+  cbn [toperand]. destruct (lit_mismatch _ _ _ _ || _); try discriminate. destruct (negb (eqne op) && _); try discriminate.
   destruct op; try discriminate; cbn [mk_cmp]; discriminate.
 Qed.
 
@@ -835,7 +874,7 @@ Section SynTotal.
   Hypothesis Hvars : assoc sel vars = Some root.
 
 Lemma toperand_total x st : operand_shape sc sel root x = true ->
-  exists e st', toperand sc vars sel root st x = ROk e st' /\
+  exists e st', toperand sc sel root st x = ROk e st' /\
                 match x with OAttr _ _ => is_col e = true | OLit c => e = SConst c | _ => True end.
 Proof.
   intros H. destruct x as [v ch|c| |]; try discriminate.
@@ -855,31 +894,35 @@ Qed.
 Lemma tcond_total c : cond_shape sc sel root c = true ->
   forall io st, exists p st', tcond sc vars sel root io st c = ROk (Some p) st'.
 Proof.
-  induction c as [op l r|ct it|p1 IH1 q1 IH2|p1 IH1 q1 IH2|p1 _|x|cs0 it0]; intros Hc io st; cbn [cond_shape] in Hc; try discriminate.
-  - destruct l as [v ch| | |]; try discriminate. apply andb_true_iff in Hc. destruct Hc as [Hc Hen].
+  induction c as [op l r|ct it|p1 IH1 q1 IH2|p1 IH1 q1 IH2|p1 _|x|cs0 it0|]; intros Hc io st; cbn [cond_shape] in Hc; try discriminate.
+  - destruct l as [v ch| | |]; try discriminate. apply andb_true_iff in Hc. destruct Hc as [Hc Hmm].
+    apply andb_true_iff in Hc. destruct Hc as [Hc Hen].
     apply andb_true_iff in Hc. destruct Hc as [Hc Hn].
     apply andb_true_iff in Hc. destruct Hc as [Hc1 Hc2].
-    cbn [tcond]. unfold tcmp. rewrite (teqjoin_none sc sel root vars io st op v ch r Hc1 Hc2), (rel_check_shape sc sel root vars Hvars _ _ _ Hc1 Hc2).
-    cbn [negb named_var]. destruct (toperand_total _ st Hc1) as [a [st1 [T1 A1]]]. rewrite T1.
+    cbn [tcond]. unfold tcmp. rewrite (teqjoin_none sc sel root vars io (set_io io st) op v ch r Hc1 Hc2), (rel_check_shape sc sel root vars Hvars _ _ _ Hc1 Hc2).
+    cbn [negb]. destruct (toperand_total _ (set_io io st) Hc1) as [a [st1 [T1 A1]]]. rewrite T1.
     destruct (toperand_total _ st1 Hc2) as [b [st2 [T2 A2]]]. rewrite T2.
+    rewrite (mismatch_shape sc sel root vars Hvars _ _ Hc1 Hmm (ex_intro _ v (ex_intro _ ch eq_refl))).
     rewrite (enum_check_shape sc sel root vars Hvars _ _ _ Hc1 Hc2 Hen).
     destruct (mk_cmp_total op a b r A1 A2 Hn) as [p M].
     { destruct r; try discriminate; eauto. }
     rewrite M. eauto.
   - destruct ct as [| |cs|]; try discriminate. destruct it as [v ch| | |]; try discriminate.
-    apply andb_true_iff in Hc. destruct Hc as [Hc1 Hc2]. cbn [tcond]. unfold tcontains.
+    apply andb_true_iff in Hc. destruct Hc as [Hc Hmm]. apply andb_true_iff in Hc. destruct Hc as [Hc1 Hc2]. cbn [tcond]. unfold tcontains.
     rewrite (shape_not_rel sc sel root vars Hvars _ Hc1). cbn [is_rel orb].
-    destruct (toperand_total _ st Hc1) as [a [st1 [T1 _]]]. cbn [toperand] in T1. rewrite T1. eauto.
+    destruct (toperand_total _ (set_io io st) Hc1) as [a [st1 [T1 _]]]. cbn [toperand] in T1. rewrite T1.
+    rewrite (mismatch_list_shape sc sel root vars Hvars _ _ _ Hc1 Hmm). eauto.
   - apply andb_true_iff in Hc. destruct Hc as [Hc1 Hc2]. cbn [tcond].
     destruct (IH1 Hc1 io st) as [a [st1 T1]]. rewrite T1. destruct (IH2 Hc2 io st1) as [b [st2 T2]]. rewrite T2. simpl. eauto.
   - apply andb_true_iff in Hc. destruct Hc as [Hc1 Hc2]. cbn [tcond].
     destruct (IH1 Hc1 true st) as [a [st1 T1]]. rewrite T1. destruct (IH2 Hc2 true st1) as [b [st2 T2]]. rewrite T2. simpl. eauto.
   - destruct x as [v ch| | |]; try discriminate. cbn [tcond].
-    destruct (toperand_total _ st Hc) as [a [st1 [T1 _]]]. cbn [toperand] in T1. rewrite T1. eauto.
+    destruct (toperand_total _ (set_io io st) Hc) as [a [st1 [T1 _]]]. cbn [toperand] in T1. rewrite T1. eauto.
   - destruct it0 as [v ch| | |]; try discriminate.
-    apply andb_true_iff in Hc. destruct Hc as [Hc1 Hc2]. cbn [tcond]. unfold tcontains.
+    apply andb_true_iff in Hc. destruct Hc as [Hc Hmm]. apply andb_true_iff in Hc. destruct Hc as [Hc1 Hc2]. cbn [tcond]. unfold tcontains.
     rewrite (shape_not_rel sc sel root vars Hvars _ Hc1). cbn [is_rel orb].
-    destruct (toperand_total _ st Hc1) as [a [st1 [T1 _]]]. cbn [toperand] in T1. rewrite T1. eauto.
+    destruct (toperand_total _ (set_io io st) Hc1) as [a [st1 [T1 _]]]. cbn [toperand] in T1. rewrite T1.
+    rewrite (mismatch_list_shape sc sel root vars Hvars _ _ _ Hc1 Hmm). eauto.
 Qed.
 End SynTotal.
 
@@ -902,7 +945,8 @@ Module Wit.
     {| sc_fields := [(1, [(3, FScalar); (4, FScalar)]); (3, [(6, FScalar)]);
                      (4, [(7, FRel 1); (8, FRel 3)]); (5, [(1, FScalar); (9, FScalar)]);
                      (8, [(10, FRel 5); (11, FRel 5)]); (9, [(10, FRel 5); (11, FRel 5)])];
-       sc_sub := [(1, 1); (3, 3); (4, 4); (5, 5); (8, 8); (9, 9)]; sc_enums := [] |}.
+       sc_sub := [(1, 1); (3, 3); (4, 4); (5, 5); (8, 8); (9, 9)]; sc_enums := [];
+       sc_nums := [(1, 3); (1, 4); (3, 6); (5, 9)]; sc_texts := [(5, 1)] |}.
   Definition body1 : list Z := [66; 111; 100; 121; 49].   (* "Body1" *)
   Definition w : world :=
     [ {| o_key := 1; o_cls := 1; o_fields := [(3, VInt 1); (4, VInt 0)] |};
